@@ -1366,7 +1366,7 @@ Qed.
 Lemma op_ping_g c : gspec retv_merr c (op_ping c).
 Proof.
   unfold op_ping. cbv zeta. change (k_ping (c <| k_nextr ::= N.succ |>)) with (k_ping c).
-  destruct (k_ping c); [gleaf|].
+  destruct (k_ping c); [destruct (k_closed _); gleaf|].
   eapply gspec_bind; [eapply gspec_same; [|apply op_write_g]; reflexivity|].
   intros [c2 r] _ Hr. cbn [fst snd] in *.
   destruct r as [e|]; [destruct (e =? 0)|]; try gleaf.
